@@ -542,9 +542,17 @@ where
         B: GGSWInfos,
     {
         let res_dft: usize = self.bytes_of_vec_znx_dft((selector_infos.rank() + 1).into(), selector_infos.size());
+        // The external product is applied on the difference of the two branches, which is
+        // stored with the limbs of `res` (`cmux`, `cmux_assign`), i.e. not only with those of `a`.
+        let diff_infos: GLWELayout = GLWELayout {
+            n: res_infos.n(),
+            base2k: res_infos.base2k(),
+            k: res_infos.max_k().max(a_infos.max_k()),
+            rank: res_infos.rank(),
+        };
         res_dft
             + self
-                .glwe_external_product_internal_tmp_bytes(res_infos, a_infos, selector_infos)
+                .glwe_external_product_internal_tmp_bytes(res_infos, &diff_infos, selector_infos)
                 .max(self.vec_znx_big_normalize_tmp_bytes())
     }
 
